@@ -161,9 +161,26 @@ def check_partner_suffix(ctx: Check, tree: Tree) -> None:
     parent_calls = [c for c in calls if any(k.arg == "use_helicity" and isinstance(k.value, ast.Constant) and k.value.value is False for k in c.keywords)]
     ok = False
     if len(partner_calls) == 1 and len(parent_calls) == 1:
-        # the partner call sits in a generator over both outgoing states
+        # the partner call sits in a generator over both outgoing states; incoming/outgoing
+        # come from get_helicity_info(transition, node_id) (tuple positions 0 / 1)
+        crd = RD(couple.node)
         gen = next((a for a in ancestors(partner_calls[0]) if isinstance(a, ast.GeneratorExp)), None)
-        ok = gen is not None and unparse(gen.generators[0].iter) == "outgoing_states" and not gen.generators[0].ifs and unparse(parent_calls[0].args[0]) == "incoming_state"
+
+        def helicity_info_index(name_node):
+            idx = set()
+            for d in crd.reaching(name_node) if isinstance(name_node, ast.Name) else ():
+                if d.value is not None and "get_helicity_info(" in unparse(d.value):
+                    idx.add(d.index)
+            return idx
+
+        ok = (
+            gen is not None
+            and not gen.generators[0].ifs
+            and helicity_info_index(gen.generators[0].iter) == {1}
+            and helicity_info_index(parent_calls[0].args[0]) == {0}
+            and isinstance(gen.generators[0].target, ast.Name)
+            and unparse(partner_calls[0].args[0]) == gen.generators[0].target.id
+        )
     ctx.verdict(ok, "R-PARTNER", f"{couple.qual}::partner-suffix", tree.loc(couple.node),
                 "partner suffix = parent (no helicity) -> both daughters with make_parity_partner=True", None if ok else [unparse(c) for c in calls])
     sts = tree.func("ampform.helicity.naming::_state_to_str")
@@ -174,8 +191,17 @@ def check_partner_suffix(ctx: Check, tree: Tree) -> None:
     loops = node_loops(seq)
     ok = len(loops) == 1
     if ok:
-        body = unparse(loops[0])
-        ok = "generate_two_body_decay_suffix(transition, node_id)" in body and f"self.{MAPPING}[suffix]" in body and "coefficient_names.append(suffix)" in body
+        from ..canon import canon
+
+        loop = loops[0]
+        body = canon(loop, seq.node)
+        # for _0 in transition.topology.nodes: _1 = suffix(transition, _0); if _1 in mapping: _1 = mapping[_1]; _2.append(_1)
+        ok = (
+            "self.generate_two_body_decay_suffix(transition, _0)" in body
+            and f"_1 = self.{MAPPING}[_1]" in body
+            and "_2.append(_1)" in body
+            and not any(isinstance(n, (ast.Continue, ast.Break)) for n in walk_function(loop))
+        )
     ctx.verdict(ok, "R-PARTNER", f"{seq.qual}::maps-each-node", tree.loc(seq.node), "generate_sequential_amplitude_suffix maps the suffix of every node through the partner mapping")
     reg = cls.methods.get("__register_amplitude_coefficient_name")
     conts = [n for n in walk_function(reg.node) if isinstance(n, ast.If) and "parity_prefactor is None" in unparse(n.test) and any(isinstance(s, ast.Continue) for s in n.body)]
